@@ -71,6 +71,7 @@ class Model:
         items = list(rd)
         intern = Interner()
         lines = ["CASE %d %d %d" % (1 if process_directives else 0, fuel, len(items))]
+        self.maxlast = max([it.span[1] for it in items] or [0])
         dirs = F3_directive_formats()
         for k, it in enumerate(items):
             if isinstance(it, fp.readfortran.Comment):
@@ -108,7 +109,7 @@ class Model:
                 fp.SYMBOL_TABLES.clear()
                 return dict(kind=tag, line=int(line), cost=int(cost), lcost=int(lcost), depth=int(depth),
                             left=int(left), maxread=int(maxread), shape=sh, tables=tabs, queries=nq,
-                            nitems=len(items), intern=intern)
+                            nitems=len(items), intern=intern, maxlast=self.maxlast)
             else:
                 raise RuntimeError("driver said: " + ln)
 
@@ -232,7 +233,10 @@ def compare(std, src, model=None, **kw):
         if m[key] != r[key]:
             diffs.append("%s: model=%r real=%r" % (key, m[key], r[key]))
     if m["kind"] == "syntax" and r["kind"] == "syntax" and m["line"] != r["line"]:
-        diffs.append("line: model=%r real=%r" % (m["line"], r["line"]))
+        # lines after the last item (a cpp continuation cut off by the end of the file, trailing blank or ignored
+        # comment lines) are read by the reader but are not items: the model has no line numbers for them
+        if not (r["line"] > m["maxlast"] and m["line"] == m["maxlast"]):
+            diffs.append("line: model=%r real=%r" % (m["line"], r["line"]))
     return (not diffs), diffs, m, r
 
 
